@@ -112,6 +112,25 @@ func (w *balWorld) balStep(rt *rapid.T, kinds []string) {
 		} else {
 			h.Mark("refused")
 		}
+	case "drain":
+		// the Alphabet burns the whole balance of every account: the supply reaches zero (and grows again later)
+		for _, a := range pool {
+			b := st.bal(a)
+			if b.Sign() <= 0 {
+				continue
+			}
+			dop := &balOp{kind: "burn", amount: new(big.Int).Set(b), signers: alphaOnly}
+			dop.desc = "burn(" + w.name(a) + "," + b.String() + ") [drain] signers=" + sig(dop.signers, w.names)
+			p1, p2, out := w.do(dop, w.bal, "burn", a, b, []byte("drain"))
+			w.check(p1, p2, out, dop)
+			if out.Halt {
+				h.Mark("ok-change")
+			}
+		}
+		if w.state().supply.Sign() == 0 {
+			h.Mark("supply-reached-zero")
+		}
+		return
 	case "burn":
 		from := drawAddr("from")
 		amt, cls := amountFor(rt, st.bal(from), "amount")
@@ -180,7 +199,7 @@ func itoa(v int64) string { return big.NewInt(v).String() }
 func TestC01Stateful(t *testing.T) {
 	theT = t
 	col := ev.New("C01", "stateful",
-		"rapid state machine over transfer/transferX/mint/burn/lock/newEpoch/tick on NNS+Netmap+Balance (n in {1,3}); a case is non-trivial when it contains at least one successful balance-changing invocation and at least one refused or boundary-amount invocation; distinct = distinct operation lists",
+		"rapid state machine over transfer/transferX/mint/burn/lock/newEpoch/tick and the composite 'drain' (every account burnt completely: supply 0, later mints start from there) on NNS+Netmap+Balance (n in {1,3}); accounts: 3 users, a contract, the Balance contract's own address, a never funded one, lock accounts; a case is non-trivial when it contains at least one successful balance-changing invocation and at least one refused or boundary-amount invocation; distinct = distinct operation lists",
 		"Alphabet-only methods receive well-formed 20-byte addresses", "lock targets are fresh addresses", "lock until >= 1 (0 is the contract's not-a-lock marker)",
 		"transaction atomicity on FAULT is provided by neo-go (trusted)")
 	runRapid(t, col, func(rt *rapid.T, h *ev.History) {
@@ -195,7 +214,7 @@ func TestC01Stateful(t *testing.T) {
 			p1, p2, out := w.do(op, w.bal, "mint", u.ScriptHash(), op.amount, []byte("init"))
 			w.check(p1, p2, out, op)
 		}
-		kinds := []string{"transfer", "transfer", "transfer", "transferX", "transferX", "mint", "burn", "burn", "lock", "lock", "newEpoch", "tick"}
+		kinds := []string{"transfer", "transfer", "transfer", "transfer", "transfer", "transfer", "transferX", "transferX", "transferX", "transferX", "mint", "mint", "burn", "burn", "burn", "burn", "lock", "lock", "lock", "lock", "newEpoch", "newEpoch", "tick", "tick", "drain"}
 		steps := rapid.IntRange(1, 25).Draw(rt, "steps")
 		for i := 0; i < steps; i++ {
 			w.balStep(rt, kinds)
